@@ -529,7 +529,7 @@ def _shortest_valid_path(
     visited.add(cur_node)
     neighbors = G.neighbors(cur_node)
 
-    if cur_node is node_y:
+    if cur_node == node_y:
         return (True, [node_y])
 
     for elem in neighbors:
@@ -544,7 +544,7 @@ def _shortest_valid_path(
                 _is_collider(G, prev_node, cur_node, elem)
                 and (cur_node not in all_ancestors)
                 and (cur_node not in S)
-                and (cur_node is not node_y)
+                and (cur_node != node_y)
             ):
                 continue
 
@@ -554,7 +554,7 @@ def _shortest_valid_path(
             elif (
                 not _is_collider(G, prev_node, cur_node, elem)
                 and (cur_node not in L)
-                and (cur_node is not node_y)
+                and (cur_node != node_y)
             ):
                 continue
 
